@@ -1,46 +1,71 @@
-import QbiceVerif.Lemmas.EngineLtsCT
+import QbiceVerif.Lemmas.EngineLtsCT2
 
 /-! Termination of the `CT` LTS: a variant that strictly decreases on every event, and
 deadlock-freedom (a state with an unfinished request has an enabled event). -/
 
 namespace QbiceVerif.Lts.CT
 
-/-! ### the variant -/
+/-! ### the variant
+
+Lexicographic: `Phi` (the work the requests can still cause; never increases, strictly decreases on
+every step of an owner, on every cancellation and on every step towards a hit of a verified key),
+then `Mu2` (the distance of the not yet verified requests to their `entry_sync`; a waiter woken by a
+cancelled owner goes round the loop again, which `Phi` of that owner pays for).  Encoded in one
+number `Mvar = 5 * Phi * (Phi + 1) + Mu2` using `Mu2 ≤ 9 * Phi`. -/
 
 /-- an upper bound on the total potential of the requests an executor of a key `< k` can cause -/
 def Q (B : Nat) : Nat → Nat
   | 0 => 0
-  | k + 1 => Q B k + (16 + B * (1 + Q B k))
+  | k + 1 => Q B k + (10 + B * (1 + Q B k))
 
-/-- potential of the owner entering its executor -/
-def E (B k : Nat) : Nat := 9 + B * (1 + Q B k)
+/-- potential of a request on an unverified key before it owns the entry -/
+def P (B k : Nat) : Nat := 10 + B * (1 + Q B k)
 
-theorem E_lt_Q {B d k : Nat} (h : d < k) : E B d + 7 ≤ Q B k := by
+theorem P_le_Q {B d k : Nat} (h : d < k) : P B d ≤ Q B k := by
   induction k with
   | zero => omega
   | succ k ih =>
     simp only [Q]
     by_cases hd : d = k
-    · subst hd; simp only [E]; omega
+    · subst hd; simp only [P]; omega
     · have := ih (by omega); omega
+
+theorem P_ge (B k : Nat) : 10 ≤ P B k := by unfold P; omega
 
 /-- potential of one request; `v` = its key is verified -/
 def pot (B : Nat) (v : Bool) (t : Task) : Nat :=
   match t.pc with
   | .done => 0
-  | .fast => if v then 1 else E B t.key + 4
-  | .snap => if v then 2 else E B t.key + 5
-  | .sccWait _ => if v then 3 else E B t.key + 6
-  | .loopHead => if v then 4 else E B t.key + 7
-  | .wait _ => 5
-  | .guardB => if v then 5 else E B t.key + 1
-  | .resnap => if v then 6 else E B t.key + 2
-  | .guardA => if v then 7 else E B t.key + 3
+  | .gone => 0
+  | .fast => if v then 1 else P B t.key
+  | .snap => if v then 2 else P B t.key
+  | .sccWait _ => if v then 3 else P B t.key
+  | .loopHead => if v then 4 else P B t.key
+  | .wait _ => if v then 5 else P B t.key
+  | .guardB => if v then 5 else P B t.key
+  | .resnap => if v then 6 else P B t.key
+  | .guardA => if v then 7 else P B t.key
   | .exec b => 9 + b * (1 + Q B t.key)
   | .wantX => 8
   | .publish => 7
   | .remove => 6
   | .notify => 5
+  | .removeA => 6
+  | .notifyA => 5
+
+/-- distance to the `entry_sync` of a request on an unverified key -/
+def dist (v : Bool) (t : Task) : Nat :=
+  if v then 0 else
+  match t.pc with
+  | .loopHead => 8
+  | .sccWait _ => 7
+  | .snap => 6
+  | .fast => 5
+  | .guardA => 4
+  | .resnap => 3
+  | .guardB => 2
+  | .wait _ => if t.woken then 9 else 0
+  | _ => 0
 
 def sumTo : Nat → (Nat → Nat) → Nat
   | 0, _ => 0
@@ -75,51 +100,118 @@ theorem sumTo_spawn {n i c : Nat} {f g : Nat → Nat} (h : ∀ j, j < n → f j 
   simp only [sumTo]
   omega
 
-/-- the variant: the sum of the potentials of all requests -/
-def mu (s : State) : Nat := sumTo s.n (fun i => pot s.maxCalls (s.verified (s.task i).key) (s.task i))
+theorem sumTo_mul_le {n c : Nat} {f g : Nat → Nat} (h : ∀ j, j < n → f j ≤ c * g j) : sumTo n f ≤ c * sumTo n g := by
+  induction n with
+  | zero => simp [sumTo]
+  | succ n ih =>
+    simp only [sumTo, Nat.mul_add]
+    have := ih (fun j hj => h j (by omega))
+    have := h n (by omega)
+    omega
 
-theorem E_ge (B k : Nat) : 9 ≤ E B k := by unfold E; omega
+def Phi (s : State) : Nat := sumTo s.n (fun i => pot s.maxCalls (s.verified (s.task i).key) (s.task i))
+def Mu2 (s : State) : Nat := sumTo s.n (fun i => dist (s.verified (s.task i).key) (s.task i))
+
+/-- the variant -/
+def mu (s : State) : Nat := 5 * Phi s * (Phi s + 1) + Mu2 s
+
+theorem dist_le_pot (B : Nat) (v : Bool) (t : Task) : dist v t ≤ 9 * pot B v t := by
+  have := P_ge B t.key
+  unfold dist pot
+  cases v <;> simp <;> split <;> simp_all <;> (try split) <;> omega
+
+theorem Mu2_le (s : State) : Mu2 s ≤ 9 * Phi s :=
+  sumTo_mul_le (fun _ _ => dist_le_pot _ _ _)
+
+theorem quad_mono {a b : Nat} (h : a ≤ b) : 5 * a * (a + 1) ≤ 5 * b * (b + 1) :=
+  Nat.mul_le_mul (Nat.mul_le_mul_left 5 h) (by omega)
+
+theorem quad_step (a : Nat) : 5 * a * (a + 1) + 10 * (a + 1) = 5 * (a + 1) * (a + 1 + 1) := by
+  simp only [Nat.mul_add, Nat.add_mul, Nat.mul_one, Nat.one_mul]
+  omega
+
+/-- the lexicographic decrease, in the encoding -/
+theorem lex_lt {s s' : State} (h : Phi s' < Phi s ∨ (Phi s' ≤ Phi s ∧ Mu2 s' < Mu2 s)) : mu s' < mu s := by
+  unfold mu
+  rcases h with h | ⟨h1, h2⟩
+  · have hb := Mu2_le s'
+    have hm : 5 * (Phi s' + 1) * (Phi s' + 1 + 1) ≤ 5 * Phi s * (Phi s + 1) := quad_mono (by omega)
+    have := quad_step (Phi s')
+    omega
+  · have := quad_mono h1
+    omega
 
 theorem pot_verified_le (B : Nat) (t : Task) (v : Bool) : pot B true t ≤ pot B v t := by
-  have := E_ge B t.key
+  have := P_ge B t.key
   cases v
   · unfold pot; split <;> simp <;> omega
   · exact Nat.le_refl _
 
+theorem dist_verified_le (t : Task) (v : Bool) : dist true t ≤ dist v t := by
+  simp [dist]
+
 theorem pot_fresh_le {B d k : Nat} (v : Bool) (p : Option Nat) (h : d < k) :
     pot B v { key := d, pc := .loopHead, parent := p, woken := false } ≤ Q B k := by
-  have := @E_lt_Q B d k h
+  have := @P_le_Q B d k h
+  have := P_ge B d
   cases v <;> simp only [pot] <;> simp <;> omega
 
-macro "mu_simple" i:term : tactic =>
-  `(tactic| (apply Nat.lt_of_succ_le
+/-- `Phi` strictly decreases because task `i` moved and nothing else changed -/
+macro "phi_drop" i:term : tactic =>
+  `(tactic| (left
+             apply Nat.lt_of_succ_le
              show _ + 1 ≤ _
-             unfold mu
+             unfold Phi
              simp only [State.setTask]
              apply sumTo_drop (i := $i)
-             · intro j hj; by_cases hji : j = $i <;> simp_all [pot, E] <;> (try split) <;> (try simp_all) <;> omega
+             · intro j hj; by_cases hji : j = $i <;> simp_all [pot, P] <;> (try split) <;> (try simp_all) <;> omega
              · assumption
-             · simp_all [pot, E] <;> (try split) <;> (try simp_all) <;> omega))
+             · simp_all [pot, P] <;> (try split) <;> (try simp_all) <;> omega))
+
+/-- `Phi` unchanged, `Mu2` strictly decreases because task `i` moved -/
+macro "mu2_drop" i:term : tactic =>
+  `(tactic| (right
+             constructor
+             · unfold Phi
+               simp only [State.setTask]
+               apply sumTo_le
+               intro j hj; by_cases hji : j = $i <;> simp_all [pot, P]
+             · apply Nat.lt_of_succ_le
+               show _ + 1 ≤ _
+               unfold Mu2
+               simp only [State.setTask]
+               apply sumTo_drop (i := $i)
+               · intro j hj; by_cases hji : j = $i <;> simp_all [dist]
+               · assumption
+               · simp_all [dist]))
+
+/-- either, by the verified flag of the key of `i` -/
+macro "lex_move" i:term : tactic =>
+  `(tactic| (apply lex_lt
+             cases hv : (‹State›).verified ((‹State›).task $i).key
+             · mu2_drop $i
+             · phi_drop $i))
 
 theorem mu_loopHead {s s' : State} {i : Nat} (h : step s (.loopHead i) = some s') : mu s' < mu s := by
   simp only [step] at h
   split at h
   · rename_i hc
     obtain ⟨hlt, hpc⟩ := hc
-    split at h <;> cases h <;> mu_simple i
+    apply lex_lt
+    cases hv : s.verified (s.task i).key
+    · split at h <;> cases h <;> mu2_drop i
+    · split at h <;> cases h <;> phi_drop i
   · cases h
 
-theorem mu_wake {s s' : State} {i : Nat} (hi : Inv s) (h : step s (.wake i) = some s') : mu s' < mu s := by
+theorem mu_wake {s s' : State} {i : Nat} (h : step s (.wake i) = some s') : mu s' < mu s := by
   simp only [step] at h
   split at h
   · rename_i hc
     obtain ⟨hlt, hw⟩ := hc
-    split at h
-    · cases h; mu_simple i
-    · rename_i o hpc
-      have hv := hi.wokenVerified i o (by simp [hpc, Pc.waitingOn]) hw
-      cases h; mu_simple i
-    · cases h
+    apply lex_lt
+    cases hv : s.verified (s.task i).key
+    · split at h <;> first | (cases h; mu2_drop i) | cases h
+    · split at h <;> first | (cases h; phi_drop i) | cases h
   · cases h
 
 theorem mu_snap {s s' : State} {i : Nat} (h : step s (.snap i) = some s') : mu s' < mu s := by
@@ -127,10 +219,10 @@ theorem mu_snap {s s' : State} {i : Nat} (h : step s (.snap i) = some s') : mu s
   split at h
   · rename_i hc
     obtain ⟨hlt, hnw⟩ := hc
-    split at h
-    · cases h; mu_simple i
-    · cases h; mu_simple i
-    · cases h
+    apply lex_lt
+    cases hv : s.verified (s.task i).key
+    · split at h <;> first | (cases h; mu2_drop i) | cases h
+    · split at h <;> first | (cases h; phi_drop i) | cases h
   · cases h
 
 theorem mu_fast {s s' : State} {i : Nat} (h : step s (.fast i) = some s') : mu s' < mu s := by
@@ -138,7 +230,12 @@ theorem mu_fast {s s' : State} {i : Nat} (h : step s (.fast i) = some s') : mu s
   split at h
   · rename_i hc
     obtain ⟨hlt, hpc⟩ := hc
-    split at h <;> cases h <;> mu_simple i
+    apply lex_lt
+    split at h
+    · rename_i hv; cases h; phi_drop i
+    · rename_i hv
+      have hv' : s.verified (s.task i).key = false := by simpa using hv
+      cases h; mu2_drop i
   · cases h
 
 theorem mu_tfcRelease {s s' : State} {i : Nat} (h : step s (.tfcRelease i) = some s') : mu s' < mu s := by
@@ -146,7 +243,10 @@ theorem mu_tfcRelease {s s' : State} {i : Nat} (h : step s (.tfcRelease i) = som
   split at h
   · rename_i hc
     obtain ⟨hlt, hpc⟩ := hc
-    cases h; mu_simple i
+    apply lex_lt
+    cases hv : s.verified (s.task i).key
+    · cases h; mu2_drop i
+    · cases h; phi_drop i
   · cases h
 
 theorem mu_tryInsert {s s' : State} {i : Nat} (hi : Inv s) (h : step s (.tryInsert i) = some s') : mu s' < mu s := by
@@ -154,10 +254,11 @@ theorem mu_tryInsert {s s' : State} {i : Nat} (hi : Inv s) (h : step s (.tryInse
   split at h
   · rename_i hc
     obtain ⟨hlt, hpc⟩ := hc
+    apply lex_lt
     split at h
     · rename_i hb
       obtain ⟨hb1, hb2⟩ := hb
-      cases h; mu_simple i
+      cases h; phi_drop i
     · rename_i hnb
       have hunv : s.verified (s.task i).key = false := by
         rcases hpc with hpc | hpc
@@ -165,19 +266,19 @@ theorem mu_tryInsert {s s' : State} {i : Nat} (hi : Inv s) (h : step s (.tryInse
         · cases hv : s.verified (s.task i).key
           · rfl
           · exact absurd ⟨hpc, hv⟩ hnb
-      have hE := E_ge s.maxCalls (s.task i).key
       split at h
       · cases h
-        rcases hpc with hpc | hpc <;> mu_simple i
+        rcases hpc with hpc | hpc <;> mu2_drop i
       · cases h
+        left
         apply Nat.lt_of_succ_le
         show _ + 1 ≤ _
-        unfold mu
+        unfold Phi
         simp only [State.setTask]
         apply sumTo_drop (i := i)
-        · intro j hj; by_cases hji : j = i <;> simp_all [pot, E] <;> (try split) <;> (try simp_all) <;> omega
+        · intro j hj; by_cases hji : j = i <;> simp_all [pot, P] <;> (try split) <;> (try simp_all) <;> omega
         · assumption
-        · rcases hpc with hpc | hpc <;> simp_all [pot, E] <;> omega
+        · rcases hpc with hpc | hpc <;> simp_all [pot, P] <;> omega
   · cases h
 
 theorem mu_execDone {s s' : State} {i : Nat} (h : step s (.execDone i) = some s') : mu s' < mu s := by
@@ -185,8 +286,9 @@ theorem mu_execDone {s s' : State} {i : Nat} (h : step s (.execDone i) = some s'
   split at h
   · rename_i hc
     obtain ⟨hlt, hcd⟩ := hc
+    apply lex_lt
     split at h
-    · cases h; mu_simple i
+    · cases h; phi_drop i
     · cases h
   · cases h
 
@@ -195,7 +297,8 @@ theorem mu_lockX {s s' : State} {i : Nat} (h : step s (.lockX i) = some s') : mu
   split at h
   · rename_i hc
     obtain ⟨hlt, hpc, hnw⟩ := hc
-    cases h; mu_simple i
+    apply lex_lt
+    cases h; phi_drop i
   · cases h
 
 theorem mu_remove {s s' : State} {i : Nat} (h : step s (.remove i) = some s') : mu s' < mu s := by
@@ -203,7 +306,29 @@ theorem mu_remove {s s' : State} {i : Nat} (h : step s (.remove i) = some s') : 
   split at h
   · rename_i hc
     obtain ⟨hlt, hpc⟩ := hc
-    cases h; mu_simple i
+    apply lex_lt
+    cases h; phi_drop i
+  · cases h
+
+theorem mu_removeA {s s' : State} {i : Nat} (h : step s (.removeA i) = some s') : mu s' < mu s := by
+  simp only [step] at h
+  split at h
+  · rename_i hc
+    obtain ⟨hlt, hpc⟩ := hc
+    apply lex_lt
+    cases h; phi_drop i
+  · cases h
+
+theorem mu_abort {s s' : State} {i : Nat} (h : step s (.abort i) = some s') : mu s' < mu s := by
+  simp only [step] at h
+  split at h
+  · split at h
+    · rename_i hc
+      obtain ⟨hlt, hcc⟩ := hc
+      have hP := P_ge s.maxCalls (s.task i).key
+      apply lex_lt
+      split at h <;> first | (cases h; phi_drop i) | cases h
+    · cases h
   · cases h
 
 theorem mu_publish {s s' : State} {i : Nat} (h : step s (.publish i) = some s') : mu s' < mu s := by
@@ -212,9 +337,11 @@ theorem mu_publish {s s' : State} {i : Nat} (h : step s (.publish i) = some s') 
   · rename_i hc
     obtain ⟨hlt, hpc⟩ := hc
     cases h
+    apply lex_lt
+    left
     apply Nat.lt_of_succ_le
     show _ + 1 ≤ _
-    unfold mu
+    unfold Phi
     simp only [State.setTask]
     apply sumTo_drop (i := i)
     · intro j hj
@@ -235,9 +362,11 @@ theorem mu_notify {s s' : State} {i : Nat} (hi : Inv s) (h : step s (.notify i) 
     obtain ⟨hlt, hpc⟩ := hc
     have hv := hi.doneVerified i (Or.inr hpc)
     cases h
+    apply lex_lt
+    left
     apply Nat.lt_of_succ_le
     show _ + 1 ≤ _
-    unfold mu
+    unfold Phi
     apply sumTo_drop (i := i)
     · intro j hj
       by_cases hji : j = i
@@ -250,6 +379,29 @@ theorem mu_notify {s s' : State} {i : Nat} (hi : Inv s) (h : step s (.notify i) 
     · simp [pot, hpc, hv]
   · cases h
 
+theorem mu_notifyA {s s' : State} {i : Nat} (h : step s (.notifyA i) = some s') : mu s' < mu s := by
+  simp only [step] at h
+  split at h
+  · rename_i hc
+    obtain ⟨hlt, hpc⟩ := hc
+    cases h
+    apply lex_lt
+    left
+    apply Nat.lt_of_succ_le
+    show _ + 1 ≤ _
+    unfold Phi
+    apply sumTo_drop (i := i)
+    · intro j hj
+      by_cases hji : j = i
+      · subst hji; simp [pot, hpc]
+      · simp only [hji, if_false]
+        split
+        · simp [pot]
+        · exact Nat.le_refl _
+    · exact hlt
+    · simp [pot, hpc]
+  · cases h
+
 theorem mu_call {s s' : State} {i d : Nat} (hi : Inv s) (h : step s (.call i d) = some s') : mu s' < mu s := by
   simp only [step] at h
   split at h
@@ -260,7 +412,9 @@ theorem mu_call {s s' : State} {i d : Nat} (hi : Inv s) (h : step s (.call i d) 
       cases h
       have hfresh := pot_fresh_le (B := s.maxCalls) (s.verified d) (some i) hd
       have hne : s.n ≠ i := by omega
-      unfold mu
+      apply lex_lt
+      left
+      unfold Phi
       simp only [State.setTask]
       apply sumTo_spawn (i := i) (c := Q s.maxCalls (s.task i).key)
       · intro j hj
@@ -278,7 +432,7 @@ theorem mu_call {s s' : State} {i d : Nat} (hi : Inv s) (h : step s (.call i d) 
 theorem step_decreases {s s' : State} {ev : Ev} (hi : Inv s) (h : step s ev = some s') : mu s' < mu s := by
   cases ev with
   | loopHead i => exact mu_loopHead h
-  | wake i => exact mu_wake hi h
+  | wake i => exact mu_wake h
   | snap i => exact mu_snap h
   | fast i => exact mu_fast h
   | tfcRelease i => exact mu_tfcRelease h
@@ -289,6 +443,9 @@ theorem step_decreases {s s' : State} {ev : Ev} (hi : Inv s) (h : step s ev = so
   | publish i => exact mu_publish h
   | remove i => exact mu_remove h
   | notify i => exact mu_notify hi h
+  | abort i => exact mu_abort h
+  | removeA i => exact mu_removeA h
+  | notifyA i => exact mu_notifyA h
 
 /-- Hence every run is finite: its length is bounded by the variant of its first state. -/
 theorem run_length_le {s s' : State} {evs : List Ev} (hr : Run s evs s') (hi : Inv s) : evs.length + mu s' ≤ mu s := by
@@ -355,6 +512,12 @@ theorem en_remove {s : State} {i : Nat} (hlt : i < s.n) (hpc : (s.task i).pc = .
 theorem en_notify {s : State} {i : Nat} (hlt : i < s.n) (hpc : (s.task i).pc = .notify) : Enabled s :=
   ⟨.notify i, by simp only [step, hlt, hpc, and_self, if_true]; exact ⟨_, rfl⟩⟩
 
+theorem en_removeA {s : State} {i : Nat} (hlt : i < s.n) (hpc : (s.task i).pc = .removeA) : Enabled s :=
+  ⟨.removeA i, by simp only [step, hlt, hpc, and_self, if_true]; exact ⟨_, rfl⟩⟩
+
+theorem en_notifyA {s : State} {i : Nat} (hlt : i < s.n) (hpc : (s.task i).pc = .notifyA) : Enabled s :=
+  ⟨.notifyA i, by simp only [step, hlt, hpc, and_self, if_true]; exact ⟨_, rfl⟩⟩
+
 theorem lt_of_pc {s : State} (hi : Inv s) {i : Nat} (h : (s.task i).pc ≠ .done) : i < s.n := by
   apply Nat.lt_of_not_le
   intro hle
@@ -363,22 +526,23 @@ theorem lt_of_pc {s : State} (hi : Inv s) {i : Nat} (h : (s.task i).pc ≠ .done
 /-- An owner (or a task about to notify) of key `k` can move, or something below it can, provided
 every unfinished request with a smaller key implies an enabled event. -/
 theorem owner_progress {s : State} (hi : Inv s) {k : Nat}
-    (ih : ∀ k', k' < k → ∀ j, j < s.n → (s.task j).key = k' → (s.task j).pc ≠ .done → Enabled s)
-    {o : Nat} (hk : (s.task o).key = k) (ho : (s.task o).pc.isOwner = true ∨ (s.task o).pc = .notify) : Enabled s := by
-  have hlt : o < s.n := lt_of_pc hi (by rcases ho with ho | ho <;> (intro hd; rw [hd] at ho; simp [Pc.isOwner] at ho))
+    (ih : ∀ k', k' < k → ∀ j, j < s.n → (s.task j).key = k' → (s.task j).pc.ended = false → Enabled s)
+    {o : Nat} (hk : (s.task o).key = k)
+    (ho : (s.task o).pc.isOwner = true ∨ (s.task o).pc = .notify ∨ (s.task o).pc = .notifyA) : Enabled s := by
+  have hlt : o < s.n := lt_of_pc hi (by rcases ho with ho | ho | ho <;> (intro hd; rw [hd] at ho; simp [Pc.isOwner] at ho))
   cases hpc : (s.task o).pc with
   | exec b =>
     by_cases hcd : s.childrenDone o = true
     · exact en_execDone hlt hpc hcd
-    · have : ∃ j, j < s.n ∧ (s.task j).parent = some o ∧ (s.task j).pc ≠ .done := by
+    · have : ∃ j, j < s.n ∧ (s.task j).parent = some o ∧ (s.task j).pc.ended = false := by
         apply Classical.byContradiction
         intro hne
         apply hcd
         apply childrenDone_intro
         intro j hj hp
-        apply Classical.byContradiction
-        intro hnd
-        exact hne ⟨j, hj, hp, hnd⟩
+        cases hnd : (s.task j).pc.ended
+        · exact absurd ⟨j, hj, hp, hnd⟩ hne
+        · rfl
       obtain ⟨j, hj, hp, hnd⟩ := this
       have := hi.parentKey j o hp
       exact ih (s.task j).key (by omega) j hj rfl hnd
@@ -410,19 +574,24 @@ theorem owner_progress {s : State} (hi : Inv s) {k : Nat}
   | publish => exact en_publish hlt hpc
   | remove => exact en_remove hlt hpc
   | notify => exact en_notify hlt hpc
-  | _ => rcases ho with ho | ho <;> simp [hpc, Pc.isOwner] at ho
+  | removeA => exact en_removeA hlt hpc
+  | notifyA => exact en_notifyA hlt hpc
+  | _ => rcases ho with ho | ho | ho <;> simp [hpc, Pc.isOwner] at ho
 
 /-- Deadlock-freedom: an unfinished request implies an enabled event (induction on the key: nested
 requests go to smaller keys, waiters wait for an owner of the same key, lock conflicts are with
 tasks of the same key that can move). -/
 theorem progress_key {s : State} (hi : Inv s) :
-    ∀ k i, i < s.n → (s.task i).key = k → (s.task i).pc ≠ .done → Enabled s := by
+    ∀ k i, i < s.n → (s.task i).key = k → (s.task i).pc.ended = false → Enabled s := by
   intro k
   induction k using Nat.strongRecOn with
   | ind k ih =>
     intro i hlt hk hnd
     cases hpc : (s.task i).pc with
-    | done => exact absurd hpc hnd
+    | done => rw [hpc] at hnd; simp [Pc.ended] at hnd
+    | gone => rw [hpc] at hnd; simp [Pc.ended] at hnd
+    | removeA => exact owner_progress hi ih hk (Or.inl (by simp [hpc, Pc.isOwner]))
+    | notifyA => exact owner_progress hi ih hk (Or.inr (Or.inr hpc))
     | loopHead => exact en_loopHead hlt hpc
     | fast => exact en_fast hlt hpc
     | guardA => exact en_tryInsert hlt (Or.inl hpc)
@@ -431,7 +600,7 @@ theorem progress_key {s : State} (hi : Inv s) :
     | wantX => exact owner_progress hi ih hk (Or.inl (by simp [hpc, Pc.isOwner]))
     | publish => exact owner_progress hi ih hk (Or.inl (by simp [hpc, Pc.isOwner]))
     | remove => exact owner_progress hi ih hk (Or.inl (by simp [hpc, Pc.isOwner]))
-    | notify => exact owner_progress hi ih hk (Or.inr hpc)
+    | notify => exact owner_progress hi ih hk (Or.inr (Or.inl hpc))
     | snap =>
       by_cases hnw : s.noneWith (s.task i).key (fun p => p == .publish) = true
       · exact en_snap hlt (Or.inl hpc) hnw
